@@ -676,3 +676,21 @@ def _o():
 def _o():
     H = I("py_ecc.bls.hash_to_curve")
     return (H.hash_to_G2, [b"abc", bytearray(b"another tag"), hashlib.sha256], {})
+
+
+@op("G1_to_pubkey:off-curve-triple-sharing-x-with-pk1", 1)
+def _o():
+    G = I("py_ecc.bls.g2_primitives")
+    M = I("py_ecc.optimized_bls12_381")
+    def f(pkb):
+        P = G.pubkey_to_G1(pkb)
+        x, y = M.normalize(P)
+        return (G.G1_to_pubkey((x, y + 1, M.FQ(1))), G.G1_to_pubkey((x, y - 1, M.FQ(1))))
+    return (f, [LIT["pk1"]], {})
+
+
+@op("compress_G1:non-subgroup-and-scaled", 1)
+def _o():
+    PC = I("py_ecc.bls.point_compression")
+    M = I("py_ecc.optimized_bls12_381")
+    return (lambda: (PC.compress_G1((M.FQ(0), M.FQ(2), M.FQ(1))), PC.compress_G1((M.FQ(0), M.FQ(6), M.FQ(3)))), [], {})
